@@ -28,6 +28,7 @@ type Stream struct {
 	ExecBatch  func(ops []M) []any // optional: executes all generated operations at once (child processes)
 	Enrich     func(op M) M        // adds what the model needs (derived from the op alone) just before piping
 	NoShrink   bool                // operations are opaque payloads: report them as generated
+	Timeout    time.Duration       // watchdog per call of the real code (default 45 s)
 }
 
 type Case struct {
@@ -134,6 +135,10 @@ func Run(s *Stream, g *G, tier string, seed int64, modelBin string, corpus []M, 
 	// finding of its own ("never hangs"), and it must not stall the check. After the first hang the
 	// remaining operations of the run are not started (the stuck goroutine keeps a core busy).
 	hung := false
+	limit := s.Timeout
+	if limit == 0 {
+		limit = 45 * time.Second
+	}
 	guarded := func(op M) any {
 		if hung {
 			return "skipped-after-hang"
@@ -143,11 +148,11 @@ func Run(s *Stream, g *G, tier string, seed int64, modelBin string, corpus []M, 
 		select {
 		case r := <-ch:
 			return r
-		case <-time.After(45 * time.Second):
+		case <-time.After(limit):
 			hung = true
 			for _, p := range s.OpProps(op) {
 				rep.Cases = append(rep.Cases, Case{Property: p, Kind: "oracle", Stream: s.Name, Op: op, Impl: "hang",
-					Messages: []string{"the operation did not return within 45 s (hang)"}})
+					Messages: []string{fmt.Sprintf("the operation did not return within %v (hang)", limit)}})
 			}
 			return "hang"
 		}
